@@ -2,7 +2,7 @@ SPECIFICATION Spec
 CONSTANTS
   AlertLS <- MCAlertLS
   RuleSets <- MCRuleSets
-  UseRuleSets = {"E0", "E1", "E2"}
+  UseRuleSets = {"E0", "E2"}
   ScacheGCEvery = 1
   ProvGCEvery = 1
   MaxTime = 2
@@ -12,7 +12,7 @@ CONSTANTS
   Queries = {"S1", "B", "T", "T2", "T3"}
   MuteQueries = {"B", "T"}
   StartModes = {"same"}
-  EndOffs = {1, 2, 3}
+  EndOffs = {1, 3}
   Timeouts = {TRUE}
   QueueBound = 0
 VIEW View
